@@ -75,7 +75,40 @@ impl<'a> G<'a> {
         if d == 0 {
             return if !ints.is_empty() && self.r.chance(1, 2) { self.r.pick(&ints).clone() } else { self.lit() };
         }
-        match self.r.below(30) {
+        match self.r.below(33) {
+            30 => {
+                // spread / partial / star patterns over a value whose type is a union of tuples
+                self.feat("union-spread");
+                let a = self.int(d - 1);
+                let (k, c) = (self.lit(), self.int(d - 1));
+                let u = format!("{a} {{ | ={k} => A[a: {}] | B[a: {}, b: {}] }}", self.int(d - 1), self.int(d - 1), self.int(d - 1));
+                match self.r.below(5) {
+                    0 => format!("{{ uv = {u}, uv[..., c: {c}] {{ =(a, c) => [a, c] __integer_add__ | 0 }} | 0 }}"),
+                    1 => format!("{{ uv = {u}, [...uv, c: {c}] {{ =(a, c) => [a, c] __integer_subtract__ | 0 }} | 0 }}"),
+                    2 => format!("{{ uv = {u}, uw = [q: {c}], [...uw, ...uv] {{ =(q, a) => [q, a] __integer_add__ | 0 }} | 0 }}"),
+                    3 => format!("{u} ~[..., z: {c}] {{ =(a, z) => [a, z] __integer_multiply__ | 0 }}"),
+                    _ => format!("{u} {{ | =A(a: ua) => ua | =B(a: ua, b: ub) => [ua, ub] __integer_add__ }}"),
+                }
+            }
+            31 => {
+                // star and partial patterns over a union whose variants share field names
+                self.feat("union-star");
+                let a = self.int(d - 1);
+                let k = self.lit();
+                let u = format!("{a} {{ | ={k} => A[a: {}, k: {}] | B[a: {}, k: {}] }}", self.int(d - 1), self.int(d - 1), self.int(d - 1), self.int(d - 1));
+                match self.r.below(3) {
+                    0 => format!("{u} {{ =* => [a, k] __integer_add__ | 0 }}"),
+                    1 => format!("{u} {{ =(a: pq) => pq | 0 }}"),
+                    _ => format!("{u} {{ | =A* => a | =B* => k }}"),
+                }
+            }
+            32 => {
+                // a variable holding one of two closures
+                self.feat("union-callable");
+                let a = self.int(d - 1);
+                let (k, b2) = (self.lit(), self.int(d - 1));
+                format!("{{ uf = {a} {{ | ={k} => #'int {{ [~, 1] __integer_add__ }} | #'int {{ [~, {}] __integer_multiply__ }} }}, {b2} uf | 0 }}", self.lit())
+            }
             22 => {
                 // string interpolation, then the byte length of the result
                 self.feat("string-interpolation");
